@@ -102,8 +102,9 @@ def evaluate(shapes, chunk=400):
             f.write('ASSUME \\A i \\in DOMAIN Shapes : PrintT(<<"META", i, ToJson(S(Shapes[i])!Metadata)>>)\n====\n')
         open(os.path.join(d, name + ".cfg"), "w").write("\n")
         rc, out, secs = tlc.run_tlc(d, name, name + ".cfg", workers=1, timeout=1200)
-        for m in re.finditer(r'<<"META", (\d+), "(.*)">>', out):
-            metas[c0 + int(m.group(1)) - 1] = json.loads(m.group(2).encode().decode("unicode_escape"))
+        for item in tlc.printed(out, "META"):
+            idx, js = item.split(",", 1)
+            metas[c0 + int(idx) - 1] = tlc.unjson(js)
     import shutil
     shutil.rmtree(d, ignore_errors=True)
     return metas
